@@ -67,7 +67,7 @@ def run(ctx):
         raise tlc.MachineryError(f"the conservation laws do not hold on the specification:\n{res.output[-2000:]}")
     cases = json.loads(out.read_text())
     out.unlink()
-    ncases = int(res.output.split('"CFGSET", ')[1].split(",")[0])
+    ncases = int(res.output.split('"LAWCASES", ')[1].split(">>")[0])     # cases of the grid the laws were evaluated on
     ctx.cov["states"] += ncases
     ctx.cov["transitions"] += ncases
     ctx.cov["model_checks"].append({"instance": f"MC_Conservation_{ctx.tier}.cfg", "cases_checked_by_ASSUME": ncases,
